@@ -38,7 +38,10 @@ EXPLANATION = (
     "that _add_input returned.  R4 (= C15-R3 instance) CircuitTemplate.update_template forwards every constructor parameter to the "
     "new instance and _add_input returns update_template(edges=<the records>) of the template that holds the input node.  "
     "R5 (from C20-R4) _add_input warns or raises when the addressed path selects no node.  R6 every python-syntax `interp_rows` "
-    "helper (and its numpy twin) interpolates column k for element k on the grid it was given.  R7 names of input operators are released (the module-level registry handed to get_unique_label emptied, shrunk or "
+    "helper (and its numpy twin) interpolates column k for element k on the grid it was given - written column by column around interp(), or as ONE vectorised "
+    "bracket interpolation of whole rows (searchsorted form / uniform-grid form: the two rows are neighbours, their weights add up to "
+    "1, weight or query/position are clamped to the grid, the uniform position uses n - 1 intervals for n rows; decided with sympy on "
+    "the inlined return expression).  R7 names of input operators are released (the module-level registry handed to get_unique_label emptied, shrunk or "
     "re-bound, directly or through an alias - effect origins over the whole package) only where the operator cache keyed by those "
     "names (class-level container of the operator template class) is emptied on the same path, in the function itself or in every "
     "caller.  R8 (= C06-R8) the per-edge column index written by _add_input is looked up by presence, never by truthiness.  NOT decided: alignment by execution "
